@@ -96,6 +96,29 @@ theorem C04_block_slice (c : Codec) (signals : Array SigEnc) (i : Nat) (d : List
     ∃ off len, b.offsetAndLength i = some (off, len) ∧ (b.data.drop off).take len = d :=
   block_slice c signals i d hd
 
+/-- the meta word in front of a payload: kind and (for compressed payloads) a length bound that is large enough -/
+theorem C04_meta_plain (s : States) : metaDecode (metaEncode s none) = some (s, none) := meta_roundtrip_plain s
+
+theorem C04_meta_compressed (s : States) (l : Nat) (hl : divCeil l 32 < 2 ^ 32) :
+    metaDecode (metaEncode s (some l)) = some (s, some (divCeil l 32 * 32)) ∧ l ≤ divCeil l 32 * 32 :=
+  meta_roundtrip_compressed s l hl
+
+/-- **one block, end to end**: whatever else is stored in the block and whatever the compression decision, a multi-bit signal whose
+recorded data is the chunk stream of the changes `cs` is loaded back as exactly those changes (time index = running sum of the
+deltas, aligned entries, immediate repetitions dropped) -/
+theorem C04_single_block_load (c : Codec) (signals : Array SigEnc) (i : Nat) (s : SigEnc) (bits : Nat) (tt : List Nat) (t0 : Nat)
+    (cs : List (Nat × States × List Nat))
+    (hs : signals.toList[i]? = some s) (hb : bits ≠ 1) (hdata : s.dataBytes = encStream cs) (hne : cs ≠ [])
+    (hcs : ∀ c ∈ cs, c.2.2.length = divCeil bits c.2.1.bib ∧ ((c.1 <<< 2) ||| c.2.1.toNat) < 2 ^ 32)
+    (hlen : divCeil (encStream cs).length 32 < 2 ^ 32) :
+    let r := finishSignals c signals
+    let b : Block := { startTime := t0, timeTable := tt, offsets := r.2.1, data := r.2.2 }
+    loadSignal { blocks := [b] } i (.bitvec bits) =
+      some { maxStates := s.maxStates,
+             times := (replayFixed bits s.maxStates cs 0 {}).2.timesRev.reverse,
+             entries := (replayFixed bits s.maxStates cs 0 {}).2.entriesRev.reverse } :=
+  single_block_load c signals i s bits tt t0 cs hs hb hdata hne hcs hlen
+
 /-- the stream the theorems are about is what the encoder appends: `add_n_bit_change` on a multi-bit signal -/
 theorem C04_encoder_chunk (ti : Nat) (value : List Nat) (st : States) (s s' : SigEnc) (bits : Nat)
     (ht : s.tpe = .bitvec bits) (hb : bits ≠ 1) (h : addNBit ti value st s = some s') :
